@@ -291,11 +291,8 @@ def parse_contract_text(text, fname='?'):
                 name, params, ret, p = parse_sig(rest)
                 out['specs'][name] = (params, ret)
             elif kw == 'define':
-                name, params, ret, p = parse_sig(rest)
-                if p.next()[1] != '=':
-                    pass
-                # find '=' position textually after signature: re-parse remainder
                 idx = _find_define_eq(rest)
+                name, params, ret, p = parse_sig(rest[:idx])
                 body = parse_expr(rest[idx + 1:])
                 out['defines'][name] = (params, ret, body)
             elif kw == 'axiom':
